@@ -1527,6 +1527,12 @@ coap_oscore_decrypt_pdu(coap_session_t *session,
         goto error_no_ack;
       }
     }
+  } else if (coap_request && rcp_ctx->initial_state == 1) {
+    /*
+     * No Appendix B.1.2 exchange configured: the first request that decrypts
+     * arms the replay window, otherwise replays would never be looked for.
+     */
+    (void)oscore_validate_sender_seq(rcp_ctx, cose);
   }
 #endif /* COAP_SERVER_SUPPORT */
 
